@@ -356,10 +356,12 @@ def nvarEntryC (pol : UInt8) : Nat → Bytes → Nat → NvS → CostM (Option (
     if ¬ okExt then pure (some ({ e1 with type := 0 }, s.guids)) else
     let r ← liftC (nvIdentG s vbuf attrs e1 offset)
     let (e2, guids) := r
-    let content ← liftC (sliceFromG "newNVar: v.buf[v.DataOffset:]" vbuf e2.dataOffset)
-    if content.take 4 = nvarSig ∧ 4 ≤ content.length then do
-      let ns ← callC (costOf (nvarStoreC pol fuel content)) (nvarStoreG pol fuel content)
-      pure (some ({ e2 with nested := ns }, guids))
+    if attrs &&& 0x10 = 0 then do                     -- fix wp-nvfix: no nested store behind an extended header
+      let content ← liftC (sliceFromG "newNVar: v.buf[v.DataOffset:]" vbuf e2.dataOffset)
+      if content.take 4 = nvarSig ∧ 4 ≤ content.length then do
+        let ns ← callC (costOf (nvarStoreC pol fuel content)) (nvarStoreG pol fuel content)
+        pure (some ({ e2 with nested := ns }, guids))
+      else pure (some (e2, guids))
     else pure (some (e2, guids))
 termination_by structural fuel _ _ _ => fuel
 
@@ -374,6 +376,8 @@ def nvarLoopC (pol : UInt8) : Nat → NvS → CostM NvS
         match ← callC (costOf (nvarEntryC pol fuel eb s.fso s)) (newNvarG pol fuel eb s.fso s) with
         | none => pure s
         | some (e, guids) =>
+          -- fix wp-nvfix: `if s.FreeSpaceOffset > s.GUIDStoreOffset { return nil, err }`
+          if s.fso + e.size > s.length - 16 * guids.length then errC else
           nvarLoopC pol fuel { s with entries := s.entries ++ [e], guids := guids, fso := s.fso + e.size,
                                       gso := s.length - 16 * guids.length }
     else pure s
